@@ -2,5 +2,6 @@ SPECIFICATION Spec
 CONSTANTS TS <- TS2 W = 2 H = 2 D = 1 Clamp = "gt-d"
 INVARIANT AssertsOk
 INVARIANT Correct
+INVARIANT ClampedAbove
 INVARIANT NormalAtHit
 CHECK_DEADLOCK FALSE
